@@ -256,6 +256,157 @@ def run(ctx):
             if not close(got, ref, 1e-10):
                 ctx.disagree(f"{fam}:{pd}D:{bc}:logpdf", desc, ref, got)
                 ctx.fail(f"{fam}:{pd}D:{bc}:logpdf", desc, ref, got, f"{fam}.logpdf is not the documented density of D(x-location)")
+            if scalar_loc:
+                # a batch of k points as the columns of a (dim, k) array (the code evaluates column-wise): one value per column
+                k = int(rng.randint(2, 4))
+                X = rng.randint(-4, 5, size=(dim, k)).astype(float); X[:, 0] = x
+                try:
+                    with quiet():
+                        gb = np.asarray(dist.logpdf(X), float).ravel()
+                except Exception as e:
+                    ctx.note(f"{fam} refused a batch {desc}: {repr(e)[:80]}")
+                    continue
+                refs = []
+                for c in range(k):
+                    Dc = D @ (X[:, c] - loc)
+                    refs.append(len(Dc) * (-(math.log(2) + math.log(scale))) - float(np.abs(Dc).sum()) / scale if fam == "LMRF"
+                                else -len(Dc) * math.log(math.pi) + float(np.sum(math.log(scale) - np.log(Dc ** 2 + scale ** 2))))
+                ctx.case(f"{fam}{pd}-batch", {**desc, "k": k})
+                if len(gb) != k or not vclose(gb, refs, 1e-10):
+                    ctx.disagree(f"{fam}:{pd}D:{bc}:logpdf:batch", {**desc, "k": k}, refs, gb.tolist())
+                    ctx.fail(f"{fam}:{pd}D:{bc}:logpdf:batch", {**desc, "k": k, "X": X.tolist()}, refs, gb.tolist(),
+                             f"{fam}.logpdf of a batch of columns is not the documented density of each column")
+
+    generic_classes(ctx, cuqi, Pmodel, thorough)
+
+def generic_classes(ctx, cuqi, Pmodel, thorough):
+    """Recurrent miss classes (tools/generic_classes.txt) applied to what C20 states: the same NUMBERS handed over with another
+    dtype / memory layout give the same field; extreme precisions are judged relatively; caller-owned arrays are not
+    modified; every returned array keeps its value (re-verified at the end)."""
+    from cuqi.distribution import GMRF, LMRF, CMRF
+    from cuqi.geometry import Image2D
+    rng = np.random.RandomState(ctx.seed + 2020)
+    forms = {
+        "int64": lambda v: np.asarray(v).astype(np.int64),
+        "int32": lambda v: np.asarray(v).astype(np.int32),
+        "float32": lambda v: np.asarray(v).astype(np.float32),
+        "list": lambda v: [float(t) for t in v],
+        "strided": lambda v: np.repeat(np.asarray(v, float), 2)[::2],
+        "reversed-view": lambda v: np.asarray(v, float)[::-1].copy()[::-1],
+        "readonly": lambda v: (lambda a: (a.setflags(write=False), a)[1])(np.array(v, float)),
+    }
+    retained = []
+    nconf = 24 if not thorough else 200
+    for _ in range(nconf):
+        pd = 1 if rng.rand() < 0.7 else 2
+        order = int(rng.randint(0, 3)); bc = ["zero", "periodic", "neumann"][rng.randint(0, 3)]
+        n = int(rng.randint(3, 9)) if pd == 1 else int(rng.randint(3, 5))
+        if Pmodel.get((pd, order, bc, n), "err") == "err":
+            continue
+        dim = n if pd == 1 else n * n
+        P = np.array([[float(v) for v in r] for r in pm(Pmodel[(pd, order, bc, n)])])
+        geom = {} if pd == 1 else {"geometry": Image2D((n, n))}
+        mean = rng.randint(-3, 4, size=dim).astype(float)
+        x = rng.randint(-4, 5, size=dim).astype(float)
+        prec = float(rng.choice([1e-12, 1e-6, 1.0, 1e6, 1e12, 2.0 ** -40, 2.0 ** 30]))
+        base = f"GMRF:{pd}D:order{order}:{bc}:generic"
+        desc0 = {"gmrf": f"{pd}D", "order": order, "bc": bc, "n": n, "prec": prec}
+        try:
+            with quiet():
+                G0 = GMRF(mean.copy(), prec, bc_type=bc, order=order, **geom)
+                l0 = float(G0.logpdf(x)); l0m = float(G0.logpdf(mean))
+                S0 = dense(G0.sqrtprec)
+        except Exception as e:
+            ctx.note(f"GMRF refused {desc0}: {repr(e)[:80]}"); continue
+        ctx.case("gmrf-generic", desc0)
+        # G4: scale.  quadratic form and square root judged relatively to prec
+        quad = -0.5 * prec * float((x - mean) @ (P @ (x - mean)))
+        canc = 1e-12 * (abs(l0m) + abs(l0))       # the difference of two log-densities carries their rounding, not a defect
+        if math.isfinite(l0) and math.isfinite(l0m) and abs((l0 - l0m) - quad) > 1e-8 * abs(quad) + canc:
+            ctx.fail(base + ":scale:quadratic", desc0, quad, l0 - l0m, "logpdf(x)-logpdf(mean) is not -prec/2 |D(x-mean)|^2 at this precision scale")
+        if not mclose((S0.T @ S0) / prec, P, 1e-6):
+            ctx.fail(base + ":scale:sqrtprec", desc0, "R^T R / prec = D^T D", "differs", "square-root precision is not a square root of prec*D^T D at this precision scale")
+        # the constant: rank * log(prec) must enter (difference between two precisions, same object kind)
+        try:
+            with quiet():
+                G1 = GMRF(mean.copy(), 4.0 * prec, bc_type=bc, order=order, **geom)
+                d = float(G1.logpdf(mean)) - l0m
+            evp = np.linalg.eigvalsh(P); rank_ok = int(np.sum(evp > 1e-9 * max(1.0, evp.max()))) == int(G0._rank)
+            # where the declared rank is wrong (known findings) the log-determinant is that of a numerically singular matrix: not judged here
+            if rank_ok and math.isfinite(d) and not close(d, 0.5 * int(G0._rank) * math.log(4.0), 1e-7):
+                ctx.fail(base + ":scale:constant", desc0, 0.5 * int(G0._rank) * math.log(4.0), d, "normalising constant does not scale as (rank/2) log prec")
+        except Exception as e:
+            ctx.note(f"GMRF(4*prec) refused {desc0}: {repr(e)[:80]}")
+        retained.append((base + ":retained", desc0, S0.copy(), G0, "sqrtprec"))
+        # G1/G7: same numbers, other dtype / layout, for the mean and for the evaluation point
+        for fname, f in forms.items():
+            for role in ("mean", "x"):
+                desc = {**desc0, "form": fname, "role": role}
+                marg = f(mean) if role == "mean" else mean.copy()
+                xarg = f(x) if role == "x" else x.copy()
+                snap = None if isinstance(marg, list) else np.array(marg, copy=True)
+                snapx = None if isinstance(xarg, list) else np.array(xarg, copy=True)
+                try:
+                    with quiet():
+                        G = GMRF(marg, prec, bc_type=bc, order=order, **geom)
+                        got = float(G.logpdf(xarg)) - float(G.logpdf(mean.copy()))   # constants are judged elsewhere (rank findings)
+                        gr = None
+                        if role == "x" or fname in ("int64", "int32"):
+                            try:
+                                gr = np.asarray(G.gradient(xarg), float).ravel()
+                            except Exception:
+                                gr = None
+                except Exception as e:
+                    ctx.note(f"GMRF refused {fname} {role}: {repr(e)[:60]}"); continue
+                ctx.case("gmrf-generic-form", {"form": fname, "role": role})
+                tol = 1e-4 if fname == "float32" else 1e-8
+                if math.isfinite(got) and abs(got - quad) > tol * abs(quad) + canc:
+                    ctx.fail(base + f":form:{role}:{fname}", desc, quad, got, "same numbers in another dtype / memory layout give another log-density")
+                if gr is not None:
+                    gref = -prec * (P @ (x - mean))
+                    if not vclose(gr / prec, gref / prec, 1e-4 if fname == "float32" else 1e-8):
+                        ctx.fail(base + f":form:{role}:{fname}:gradient", desc, gref.tolist(), gr.tolist(), "gradient for the same numbers in another dtype / layout differs from -prec D^T D (x-mean)")
+                # G2: caller-owned arrays untouched
+                if snap is not None and not (np.array_equal(np.asarray(marg), snap)):
+                    ctx.fail(base + ":modifies:mean", desc, snap.tolist(), np.asarray(marg).tolist(), "GMRF modified the caller's mean array")
+                if snapx is not None and not (np.array_equal(np.asarray(xarg), snapx)):
+                    ctx.fail(base + ":modifies:x", desc, snapx.tolist(), np.asarray(xarg).tolist(), "GMRF.logpdf/gradient modified the caller's evaluation point")
+        # LMRF / CMRF: D(x - location) for other dtypes / layouts / scales
+        if order == 1:
+            with quiet():
+                from cuqi.operator import FirstOrderFiniteDifference
+                D = dense((FirstOrderFiniteDifference(n, bc) if pd == 1 else FirstOrderFiniteDifference((n, n), bc)).get_matrix()) if False else None
+        scale = float(rng.choice([1e-9, 1e-3, 1.0, 1e3, 1e9]))
+        for fam, cls in (("LMRF", LMRF), ("CMRF", CMRF)):
+            try:
+                with quiet():
+                    d0 = cls(mean.copy(), scale, bc_type=bc, **geom)
+                    r0 = float(d0.logpdf(x))
+            except Exception as e:
+                ctx.note(f"{fam} refused: {repr(e)[:60]}"); continue
+            for fname, f in forms.items():
+                for role in ("location", "x"):
+                    larg = f(mean) if role == "location" else mean.copy()
+                    xarg = f(x) if role == "x" else x.copy()
+                    snap = None if isinstance(larg, list) else np.array(larg, copy=True)
+                    desc = {"mrf": fam, "dim": pd, "bc": bc, "n": n, "scale": scale, "form": fname, "role": role}
+                    try:
+                        with quiet():
+                            dd = cls(larg, scale, bc_type=bc, **geom)
+                            got = float(dd.logpdf(xarg))
+                    except Exception as e:
+                        ctx.note(f"{fam} refused {fname} {role}: {repr(e)[:60]}"); continue
+                    ctx.case("mrf-generic-form", {"fam": fam, "form": fname, "role": role})
+                    if math.isfinite(r0) and not close(got, r0, 1e-4 if fname == "float32" else 1e-9):
+                        ctx.fail(f"{fam}:{pd}D:{bc}:generic:form:{role}:{fname}", desc, r0, got, "same numbers in another dtype / memory layout give another log-density")
+                    if snap is not None and not np.array_equal(np.asarray(larg), snap):
+                        ctx.fail(f"{fam}:{pd}D:{bc}:generic:modifies:location", desc, snap.tolist(), np.asarray(larg).tolist(), "the caller's location array was modified")
+    # G8: everything returned earlier still holds its value, and is still what the object reports
+    for key, desc, snap, G, what in retained:
+        with quiet():
+            now = dense(G.sqrtprec)
+        if not np.array_equal(now, snap):
+            ctx.fail(key, desc, "sqrtprec unchanged by later calls on other objects", "changed", "an earlier GMRF's square-root precision changed after later constructions / evaluations")
 
 
 def oracle_operator(ctx, key, desc, kind, order, bc, n, A):
